@@ -312,3 +312,30 @@ theorem X_fit_select_models (s : Sel K) (v : EF K) (hs : s.thr = some v) (nd : N
     rw [List.getElem_take]; exact hget
 
 end SF
+
+namespace SF
+variable {K : Type} [Field K] [LinearOrder K] [IsStrictOrderedRing K]
+
+/-- numpy's sort order on doubles is antisymmetric on the extended floats of the model (all NaNs are one value) -/
+theorem EF.leSort_antisymm (a b : EF K) (h1 : EF.leSort a b = true) (h2 : EF.leSort b a = true) : a = b := by
+  cases a <;> cases b <;> simp_all [EF.leSort]
+  exact le_antisymm h1 h2
+
+/-- **selection does not depend on the order of the models in the package.** Two packages whose chi²
+    columns are permutations of each other (the same models stored in another order) rank to the *same*
+    chi² sequence, get the same `n_fits` from every selector, and keep the same chi² column — ties,
+    `+inf` and NaN included (only *which* of several exactly tied models comes first may differ). -/
+theorem X_select_model_perm (s : Sel K) (nd : Nat) (x x' : FitRows K) (h : x.chi2.Perm x'.chi2) :
+    (sortRows x).chi2 = (sortRows x').chi2 ∧
+    nFits s nd (sortRows x).chi2 = nFits s nd (sortRows x').chi2 ∧
+    (keep s nd (sortRows x)).chi2 = (keep s nd (sortRows x')).chi2 := by
+  have hp : ∀ y : FitRows K, (sortRows y).chi2.Perm y.chi2 := fun y =>
+    fancyIndex_perm _ _ _ (argsortEF_perm y.chi2)
+  have heq : (sortRows x).chi2 = (sortRows x').chi2 :=
+    ((hp x).trans (h.trans (hp x').symm)).eq_of_pairwise
+      (fun a b _ _ h1 h2 => EF.leSort_antisymm a b h1 h2) (X_sort_ranked x) (X_sort_ranked x')
+  refine ⟨heq, by rw [heq], ?_⟩
+  simp only [keep]
+  rw [heq]
+
+end SF
